@@ -19,6 +19,7 @@ NA = {
 }
 
 CHECKS = {}
+NOT_YET = ["C03", "C20"]  # written, but not claimed until their families are swept and the known findings listed
 
 def check(pid, engine, category, text, note, technique, design_ref):
     CHECKS[pid] = {
@@ -64,10 +65,22 @@ check("C10", "histsim", "exploration",
       "Trusted: K hash seeds are a sample; variants run sequentially in one directory because cache records embed absolute paths; typeshed replaced by fixtures.",
       "deterministic simulation: controlled-variable histories (hash seed, argument order, listing order, in-process build history) with byte-level comparison of output and cache records",
       "DESIGN.md 3/C10")
+check("C03", "daemonsim", "exploration",
+      "One long-lived dmypy Server object is driven through check/recheck over histories derived from the repository's multi-step fine-grained cases (fine-grained*.test read at run time): forward, revert to first, revert to previous and redo, skip a step, one file at a time, touch noise, restore backup (old content with its old mtime), all at once, start from a fine-grained cache; request style check <files> or recheck. After every request a fresh daemon on byte- and mtime-identical files is the oracle (status, per-file ordered diagnostics, stderr). The family (case x transform x style) is finite and swept completely in the thorough tier; VERIF_SEED selects the quick sample.",
+      "Trusted: fresh daemon as oracle (daemon-mode message wording is by design); the summary line is not a diagnostic; members whose cached state has diagnostics are outside the cache leg (documented unsupported in the suite); the generated-model family is exploration only (DESIGN 9.7); transport is C16's subject.",
+      "deterministic simulation: long-lived daemon vs fresh daemon over transformed edit histories with a simulated mtime clock",
+      "DESIGN.md 3/C03, 9.7")
+check("C20", "daemonsim", "exploration",
+      "The sub-space of the property's inputs that storage faults produce: every single-step program of check-*.test (with its fixtures and flags) under torn / spliced / lost / duplicated / reordered sector and flipped byte saves at line, 16-byte and 64-byte granularity, executed as a batch history on one cache (run; faulty save; run; heal; run) and as a daemon history on one Server; every run must end 0/1/2 without INTERNAL ERROR, traceback, hang or malformed message lines, and must recover after the heal. Internal failures are reported only if they reproduce against the bundled typeshed.",
+      "Trusted: identifier cross-wiring and type-expression replacement mutations of the property are NOT covered (not storage faults); fixtures replace typeshed in the fast path; known findings are identified by crash signature (exception type + innermost mypy frame).",
+      "deterministic simulation with fault injection: faulty saves (torn, spliced, lost, duplicated, reordered, bit-flipped sectors) of corpus programs in batch and daemon histories",
+      "DESIGN.md 3/C20")
 
 
 def main():
     props = [json.loads(l)["id"] for l in open(os.path.join(os.path.dirname(__file__), "..", "properties.jsonl"))]
+    for pid in NOT_YET:
+        CHECKS.pop(pid, None)
     na = [{"property_id": p, "reason": NA.get(p, "check not built yet in this session (planned, see DESIGN.md section 0); not claimed until its check exists and is clean on the unchanged tree")} for p in props if p not in CHECKS]
     m = {
         "version": 1,
@@ -82,6 +95,7 @@ def main():
         "engines": [
             {"name": "histsim", "path": "sim/histsim.py", "serves_properties": ["C02", "C04", "C09", "C10"], "kind_free_text": "edit/run histories over a durable cache: forked run children executing the real CLI with store, clock and fixture seams (sim/runner.py), world on tmpfs with simulated mtimes (sim/world.py), generated project model (sim/project.py) and corpus reader (sim/corpus.py)"},
             {"name": "parsched", "path": "sim/parsched.py", "serves_properties": ["C07"], "kind_free_text": "seeded scheduler over gated real worker processes of a parallel build"},
+            {"name": "daemonsim", "path": "sim/daemonsim.py", "serves_properties": ["C03", "C20"], "kind_free_text": "long-lived dmypy Server driven by method calls over mtime-exact file trees, fresh-daemon oracle"},
             {"name": "ipcsim", "path": "sim/ipcsim.py", "serves_properties": ["C16"], "kind_free_text": "single-threaded pull simulation of the daemon's transport: accept/recv/sendall answered by a scenario op list"},
         ],
         "checks": [CHECKS[p] for p in props if p in CHECKS],
